@@ -150,10 +150,13 @@ func (s *state) get(v ir.Value) ValueNilness {
 		return ValueNilness{Outer: NeverNil}
 	}
 	num := s.n.number(v)
-	if num < len(s.m) {
+	if num < len(s.m) && s.m[num] != (ValueNilness{}) {
 		return s.m[num]
 	}
 
+	// Nothing has been recorded for v. This is the case not only for numbers
+	// beyond the end of s.m, but also for the gaps that recording values with
+	// higher numbers leaves behind.
 	switch v.(type) {
 	case *ir.Parameter:
 		return ValueNilness{Inner: MaybeNil, Outer: MaybeNil}
